@@ -975,7 +975,8 @@ static Token *include_file(Token *tok, char *path, Token *filename_tok) {
 // Read #line arguments
 static void read_line_marker(Token **rest, Token *tok) {
   Token *start = tok;
-  tok = preprocess(copy_line(rest, tok));
+  tok = preprocess2(copy_line(rest, tok));
+  convert_pp_tokens(tok);
 
   // The line number is a digit sequence no greater than 2147483647.
   if (tok->kind != TK_NUM || tok->ty->kind != TY_INT ||
